@@ -416,13 +416,43 @@ type c16Run struct {
 	compact bool // omit the token list from the replays of part A (thorough tier: 1.1 M cases)
 }
 
+// tokens handed out by an EARLIER Split stay what they were: every c16HeldEvery-th result is
+// kept (the []*Token itself and a copy of its contents) and compared again after the next one
+// hundred queries have been lexed (token storage shared between Split calls would show here)
+var (
+	c16Held         []*kvql.Token
+	c16HeldCopy     []c16Tok
+	c16HeldQuery    string
+	c16HeldAge      int
+	c16HeldBad      string
+	c16HeldReported bool
+)
+
+const c16HeldEvery = 100
+
 func c16Split(q string) (ts []c16Tok, panicked string) {
 	defer func() {
 		if r := recover(); r != nil {
 			panicked = fmt.Sprint(r)
 		}
 	}()
-	return c16Toks(kvql.NewLexer(q).Split()), ""
+	raw := kvql.NewLexer(q).Split()
+	ts = c16Toks(raw)
+	if c16Held != nil {
+		c16HeldAge++
+		now := c16Toks(c16Held)
+		if c16HeldBad == "" && !c16SameToks(now, c16HeldCopy) {
+			c16HeldBad = fmt.Sprintf("the tokens of %s, kept by the caller, changed after %d later Split call(s) (last: %s): were %s, are %s",
+				strconv.Quote(c16HeldQuery), c16HeldAge, strconv.Quote(q), c16TokList(c16HeldCopy), c16TokList(now))
+		}
+		if c16HeldAge >= c16HeldEvery {
+			c16Held = nil
+		}
+	}
+	if c16Held == nil && len(raw) >= 3 {
+		c16Held, c16HeldCopy, c16HeldQuery, c16HeldAge = raw, ts, q, 0
+	}
+	return ts, ""
 }
 
 // emit runs the lexer on q, judges the output and registers the case.  items == nil: a raw
@@ -450,6 +480,10 @@ func (r *c16Run) emit(part, q string, items []c16Item, tail string) []c16Tok {
 	}
 	nontrivial := !oom && len(ts) >= 1 && (len(ts) >= 2 || quoted || twochar)
 	idx := e.add(term, rp, nontrivial)
+	if c16HeldBad != "" && !c16HeldReported {
+		e.fail(idx, c16HeldBad, "C16/tokens-changed-after-later-split", nil)
+		c16HeldReported = true
+	}
 	e.count("part=" + part)
 	switch {
 	case len(q) <= 5:
